@@ -130,40 +130,91 @@ theorem MInv.init : MInv {} where
   pend_wake := by intro c i h; simp [alookup] at h
   owed := by intro c hc; simp at hc
 
+/-- the time recorded for an interrupt of `c` stamped `stamp`: the stamp, unless `c` already has
+an EARLIER wakeup (a callback that is due but not served yet) — that one is kept. -/
+def MSt.intWhen (s : MSt) (c : Comp) (stamp : SimTime) : SimTime :=
+  match alookup s.wake c with
+  | some w => if w < stamp then w else stamp
+  | none => stamp
+
+theorem MSt.intWhen_le (s : MSt) (c : Comp) (stamp : SimTime) : s.intWhen c stamp ≤ stamp := by
+  unfold MSt.intWhen
+  simp only [SimTime] at *
+  split
+  · split <;> omega
+  · omega
+
+theorem MSt.intWhen_none (s : MSt) (c : Comp) (stamp : SimTime) (h : alookup s.wake c = none) :
+    s.intWhen c stamp = stamp := by
+  unfold MSt.intWhen; rw [h]
+
+/-- an existing wakeup not later than the stamp is what is recorded -/
+theorem MSt.intWhen_of_le (s : MSt) (c : Comp) (w stamp : SimTime) (h : alookup s.wake c = some w)
+    (hle : w ≤ stamp) : s.intWhen c stamp = w := by
+  unfold MSt.intWhen; rw [h]
+  simp only [SimTime] at *
+  split <;> omega
+
+/-- an existing wakeup not earlier than the stamp is replaced by the stamp -/
+theorem MSt.intWhen_of_ge (s : MSt) (c : Comp) (w stamp : SimTime) (h : alookup s.wake c = some w)
+    (hle : stamp ≤ w) : s.intWhen c stamp = stamp := by
+  unfold MSt.intWhen; rw [h]
+  simp only [SimTime] at *
+  split <;> omega
+
+/-- the recorded time is not later than an existing wakeup of the component -/
+theorem MSt.intWhen_le_wake (s : MSt) (c : Comp) (w stamp : SimTime) (h : alookup s.wake c = some w) :
+    s.intWhen c stamp ≤ w := by
+  unfold MSt.intWhen; rw [h]
+  simp only [SimTime] at *
+  split <;> omega
+
+theorem MSt.step_interrupt_eq (s : MSt) (c : Comp) (stamp : SimTime) :
+    s.step (.interrupt c stamp) =
+      some { s with
+        pend := if (alookup s.pend c).isSome then s.pend else upsert s.pend c (s.intWhen c stamp)
+        wake := MSt.addWakeup
+          { s with pend := if (alookup s.pend c).isSome then s.pend
+                           else upsert s.pend c (s.intWhen c stamp) } c (s.intWhen c stamp)
+        owed := sinsert s.owed c } := rfl
+
 theorem MInv.interrupt {s : MSt} (h : MInv s) (c : Comp) (stamp : SimTime) (s' : MSt)
     (hs : s.step (.interrupt c stamp) = some s') : MInv s' := by
-  simp only [MSt.step, Option.some.injEq] at hs
+  rw [MSt.step_interrupt_eq] at hs
+  -- the invariant does not depend on which time is recorded
+  generalize s.intWhen c stamp = when at hs
+  simp only [Option.some.injEq] at hs
   subst hs
-  -- the state after recording the stamp
+  -- the state after recording the time
   have hpl : ∀ c', c' ≠ c →
-      alookup (if (alookup s.pend c).isSome then s.pend else upsert s.pend c stamp) c'
+      alookup (if (alookup s.pend c).isSome then s.pend else upsert s.pend c when) c'
         = alookup s.pend c' := by
     intro c' hc'
     split
     · rfl
     · simp [ms_alookup_upsert, hc']
-  have hpc : ∃ i, alookup (if (alookup s.pend c).isSome then s.pend else upsert s.pend c stamp) c
+  have hpc : ∃ i, alookup (if (alookup s.pend c).isSome then s.pend else upsert s.pend c when) c
       = some i := by
     split
     · rename_i hsome
       exact Option.isSome_iff_exists.mp hsome
-    · exact ⟨stamp, by simp [ms_alookup_upsert]⟩
+    · exact ⟨when, by simp [ms_alookup_upsert]⟩
   refine ⟨?_, ?_, ?_, ?_⟩
   · exact MSt.addWakeup_unique
-      { s with pend := if (alookup s.pend c).isSome then s.pend else upsert s.pend c stamp }
-      h.wakeU c stamp
-  · show UniqueKeys (if (alookup s.pend c).isSome then s.pend else upsert s.pend c stamp)
+      { s with pend := if (alookup s.pend c).isSome then s.pend else upsert s.pend c when }
+      h.wakeU c when
+  · show UniqueKeys (if (alookup s.pend c).isSome then s.pend else upsert s.pend c when)
     split
     · exact h.pendU
     · exact h.pendU.upsert _ _
   · apply MSt.pend_wake_addWakeup
-      { s with pend := if (alookup s.pend c).isSome then s.pend else upsert s.pend c stamp }
-      c stamp
+      { s with pend := if (alookup s.pend c).isSome then s.pend else upsert s.pend c when }
+      c when
     intro c' i hc' hp
     have : alookup s.pend c' = some i := by rw [← hpl c' hc']; exact hp
     exact h.pend_wake c' i this
   · intro c' hc'
-    show _ ∨ ∃ i, alookup (if (alookup s.pend c).isSome then s.pend else upsert s.pend c stamp) c'
+    show _ ∨ ∃ i, alookup (if (alookup s.pend c).isSome then s.pend else upsert s.pend c when) c'
       = some i
     rcases (mem_sinsert _ _ _).mp hc' with hc' | rfl
     · rcases h.owed c' hc' with hr | ⟨i, hi⟩
